@@ -148,12 +148,14 @@ def cppTick {T S R : Type} (A : TimeArith T) (F : Filter T S R) (maxDt : T)
 
 /-- the recording filter used for the correspondence: the state *is* the list of calls so far -/
 inductive Call (T : Type) where
-  | proc (dt : T)
+  | proc (dt : T) (ctl : Nat)
   | sens (id : Nat)
   deriving Repr
 
-def traceFilter (T : Type) : Filter T (List (Call T)) Nat where
-  process dt s := s ++ [.proc dt]
+/-- `ctl` identifies the control value the tick was given (0 = none / not recorded): a filter call is
+`process(dt, …, control)`, so two ticks with different controls issue different calls -/
+def traceFilter (T : Type) (ctl : Nat := 0) : Filter T (List (Call T)) Nat where
+  process dt s := s ++ [.proc dt ctl]
   sensor id s := s ++ [.sens id]
 
 end FormakVerif
